@@ -136,6 +136,8 @@ impl FilterProtocol {
         {
             debug!("found best proved peer {}", peer);
 
+            #[cfg(feature = "verif")]
+            crate::verif_hooks::at(crate::verif_hooks::Point::LockIntent("filter.notify"));
             let mut matched_blocks = self.peers.matched_blocks().write().expect("poisoned");
             if let Some((db_start_number, blocks_count, db_blocks)) =
                 self.storage.get_earliest_matched_blocks()
